@@ -47,6 +47,7 @@ func (f *Func) Root() *Func {
 
 // Prog is the loaded, type-checked program.
 type Prog struct {
+	srcCache         map[string][]byte
 	synthIdent       map[*ast.Ident]bool // identifiers created by the normaliser (no source text of their own)
 	verbatimVisiting map[types.Object]bool
 	Fset             *token.FileSet
